@@ -848,6 +848,14 @@ Proof.
   - destruct (find_lfeat s e (Some f)); simpl; apply unchanged_effect; auto.
   - destruct (find_lfeat s e (Some f)) as [lf|]; [destruct (assoc_N fn (lf_data lf))|]; simpl; apply unchanged_effect; auto.
   - simpl. apply unchanged_effect; auto.
+  - (* LocalUnsubscribe *)
+    unfold local_unrequest. destruct (find_lfeat s e (Some f)) as [lf|]; [|simpl; apply unchanged_effect; auto].
+    destruct (fa_dev r); [|simpl; apply unchanged_effect; auto].
+    destruct (peer_by_addr s n); simpl; apply unchanged_effect; auto.
+  - (* LocalUnbind *)
+    unfold local_unrequest. destruct (find_lfeat s e (Some f)) as [lf|]; [|simpl; apply unchanged_effect; auto].
+    destruct (fa_dev r); [|simpl; apply unchanged_effect; auto].
+    destruct (peer_by_addr s n); simpl; apply unchanged_effect; auto.
 Qed.
 
 Record SInv (s : st) : Prop := { si_ok : RegOK s; si_ids : IdsOK s }.
